@@ -1015,12 +1015,16 @@ impl Eq for RelayConnectionState {}
 #[derive(Debug, Clone)]
 pub(crate) struct HomeRelayWatch {
     inner: Watchable<Option<RelayStatus>>,
+    /// Serialises the writers, so that the check in [`Self::set_status`] and its write are
+    /// atomic with respect to [`Self::set`] and [`Self::clear`].
+    write_lock: Arc<std::sync::Mutex<()>>,
 }
 
 impl Default for HomeRelayWatch {
     fn default() -> Self {
         Self {
             inner: Watchable::new(None),
+            write_lock: Default::default(),
         }
     }
 }
@@ -1028,11 +1032,13 @@ impl Default for HomeRelayWatch {
 impl HomeRelayWatch {
     /// Set the home relay URL and status. Used by [`RelayActor`] on relay changes.
     fn set(&self, url: RelayUrl, state: RelayConnectionState) {
+        let _guard = self.write_lock.lock().expect("poisoned");
         let _ = self.inner.set(Some(RelayStatus::new(url, state)));
     }
 
     /// Clear the home relay (no preferred relay). Used by [`RelayActor`].
     fn clear(&self) {
+        let _guard = self.write_lock.lock().expect("poisoned");
         let _ = self.inner.set(None);
     }
 
@@ -1043,6 +1049,7 @@ impl HomeRelayWatch {
     /// updates the URL in the watchable *before* sending `SetHomeRelay(false)`, so by
     /// the time the old actor tries to write, the URL no longer matches.
     fn set_status(&self, url: &RelayUrl, state: RelayConnectionState) {
+        let _guard = self.write_lock.lock().expect("poisoned");
         if self.inner.get().as_ref().map(RelayStatus::url) == Some(url) {
             #[cfg(feature = "verif-hooks")]
             iroh_base::verif_hooks::point("home_relay_watch:set_status:checked");
